@@ -148,10 +148,12 @@ ND1 = ['nd', 'nd_view', 'nd_ro', 'nd_int']
 # entry points
 # ---------------------------------------------------------------------------------------------------------
 class EP:
-    def __init__(self, name, static, params, call, note=''):
+    def __init__(self, name, static, params, call, note='', internal=False, compare_results=True):
         """params: list of (param name, base value factory(rng) , kinds, column names or None);
         call(**args) -> result, must build a FRESH receiver each time it is invoked"""
         self.name, self.static, self.params, self.call, self.note = name, static, params, call, note
+        self.compare_results = compare_results      # False: the result may contain uninitialised memory (findings F8/F10 of C16/C17)
+        self.internal = internal      # helper working on the model's own state: verdict correspondence only
 
 
 def _uv(rng, n=24):
@@ -252,13 +254,31 @@ def build_entry_points(rng):
         add(EP(f'multivariate.vine.VineCopula.fit[{tt}]', 'multivariate.vine.VineCopula.fit',
                [('X', lambda r: tbl, ['df', 'df_int', 'df_view'], names4)], call_vine))
 
+    vine_cache = {}
+
+    def fitted_vine(tt):
+        if tt not in vine_cache:
+            v = VineCopula(tt, random_state=9)
+            v.fit(pd.DataFrame(tbl, columns=names4))
+            vine_cache[tt] = v
+        return copy.deepcopy(vine_cache[tt])
+    for tt in ('center', 'direct', 'regular'):
+        add(EP(f'multivariate.vine.VineCopula.get_likelihood[{tt}]', 'multivariate.vine.VineCopula.get_likelihood',
+               [('uni_matrix', lambda r: um[:1], ['nd', 'nd_f', 'nd_view', 'nd_ro'], None)],
+               lambda uni_matrix, tt=tt: fitted_vine(tt).get_likelihood(uni_matrix), compare_results=False))
+        add(EP(f'multivariate.tree.Tree.get_likelihood[{tt}]', 'multivariate.tree.Tree.get_likelihood',
+               [('uni_matrix', lambda r: um[:1], ['nd', 'nd_view', 'nd_ro'], None)],
+               lambda uni_matrix, tt=tt: fitted_vine(tt).trees[0].get_likelihood(uni_matrix)[0], compare_results=False))
+        add(EP(f'multivariate.vine.VineCopula.sample[{tt}]', 'multivariate.vine.VineCopula.sample', [],
+               lambda tt=tt: fitted_vine(tt).sample(3), compare_results=False))
+
     def tree_with(tt, tau_matrix, u_matrix):
         t = get_tree(tt)
         t.level, t.n_nodes, t.tau_matrix, t.u_matrix, t.previous_tree, t.edges = 1, 4, tau_matrix, u_matrix, u_matrix, []
         return t
     add(EP('multivariate.tree.Tree._sort_tau_by_y', 'multivariate.tree.Tree._sort_tau_by_y',
            [('self.tau_matrix', lambda r: tau, ['nd', 'nd_f', 'nd_view', 'nd_ro'], None)],
-           lambda **a: tree_with('center', a['self.tau_matrix'], um)._sort_tau_by_y(1)))
+           lambda **a: tree_with('center', a['self.tau_matrix'], um)._sort_tau_by_y(1), internal=True))
     for tt, cn in (('direct', 'DirectTree'), ('center', 'CenterTree'), ('regular', 'RegularTree')):
         def call_first(tt=tt, **a):
             t = tree_with(tt, a['self.tau_matrix'], a['self.u_matrix'])
@@ -266,7 +286,7 @@ def build_entry_points(rng):
             return [(e.L, e.R, e.name) for e in t.edges]
         add(EP(f'multivariate.tree.{cn}._build_first_tree', f'multivariate.tree.{cn}._build_first_tree',
                [('self.tau_matrix', lambda r: tau, ['nd', 'nd_view', 'nd_ro'], None),
-                ('self.u_matrix', lambda r: um, ['nd', 'nd_view', 'nd_ro'], None)], call_first))
+                ('self.u_matrix', lambda r: um, ['nd', 'nd_view', 'nd_ro'], None)], call_first, internal=True))
 
     # ---- Gaussian copula
     gm_cache = {}
@@ -562,12 +582,16 @@ def gen_plot_case(rng):
                 cols.insert(int(rng.integers(0, len(cols) + 1)), 'Data')
         n = 0 if rng.random() < 0.08 else int(rng.integers(1, 6))
         rows = [[int(v) for v in rng.integers(-9, 10, size=len(cols))] for _ in range(n)]
+        if rows and rng.random() < 0.3:
+            rows.append(list(rows[int(rng.integers(0, len(rows)))]))          # a repeated row must be plotted twice
         return cols, rows
     rc, rr = frame()
     real = (rc, rr)
     synth = None
     if fn == 'compare':
         synth = frame(list(rc)) if rng.random() < 0.7 else frame()
+        if synth[0] == list(rc) and rr and rng.random() < 0.3:
+            synth[1].append(list(rr[0]))                                       # the same row in both tables: once under each label
     u = rng.random()
     if u < 0.22:
         columns = None
@@ -745,7 +769,7 @@ def run(ctx):
     ctx.write('Gen_effects.v', txt)
     ctx.copy_src('Props/C20.v')
     compiled = ctx.compile(['Gen_effects.v', 'C20.v'])
-    verdicts = model_verdicts(ctx, info) if compiled or True else {}
+    verdicts = model_verdicts(ctx, info)
     mirror_ok = all(verdicts.get(q) == v for q, v in info['__pyverdict__'].items()) if verdicts else False
     ctx.obligation('extractor:python-mirror-equals-coq-analysis', mirror_ok, 'correspondence',
                    str([(q, verdicts.get(q), v) for q, v in info['__pyverdict__'].items() if verdicts.get(q) != v][:5]))
@@ -762,6 +786,13 @@ def run(ctx):
     # ---------------- 2. dynamic: every entry point twice on snapshotted arguments of every container kind
     rng = np.random.default_rng(seed + 20)
     eps = build_entry_points(rng)
+    if not quick:                      # thorough: two more data sets
+        for rd in (1, 2):
+            rng2 = np.random.default_rng(seed + 20 + 1000 * rd)
+            more = build_entry_points(rng2)
+            for e in more:
+                e.round, e.seed = rd, seed + 20 + 1000 * rd
+            eps += more
     observed = {}          # (static name, param) -> True/False
     exercised = {}
     blocked = {}
@@ -794,12 +825,14 @@ def run(ctx):
                 if ep.static:
                     observed[(ep.static, pn)] = observed.get((ep.static, pn), False) or (pn in muts)
                     exercised[(ep.static, pn)] = exercised.get((ep.static, pn), False) or not o['raised1'] or (pn in muts)
-            ctx.case((ep.name, tuple(sorted(combo.items()))),
+            ctx.case((ep.name, getattr(ep, 'round', 0), tuple(sorted(combo.items()))),
                      {'entry_point': ep.name, 'containers': combo, 'mutated': sorted(muts), 'raised': o['r1'][1] if o['raised1'] else None,
                       'second_call_same_result': o['r1'] == o['r2']},
                      nontrivial=(not o['raised1']) or bool(muts))
             for pn in sorted(muts):
-                key, what = finding_key(ep, pn.replace('self.', 'self.'))
+                if ep.internal:
+                    continue
+                key, what = finding_key(ep, pn)
                 if key in seen_keys:
                     continue
                 seen_keys.add(key)
@@ -808,32 +841,31 @@ def run(ctx):
                     extra = f"; the second identical call then {'raises ' + o['r2'][1] if o['raised2'] else 'returns a different result'}"
                 ctx.violation(key, f"{what}: {o['detail'].get(pn, '')}{extra}",
                               {'entry_point': ep.name, 'containers': combo, 'seed': seed + 20, 'detail': o['detail'],
-                               'repro': direct_repro(key, ep, combo, seed + 20)})
-            if not muts and o['r1'] != o['r2']:
+                               'repro': direct_repro(key, ep, combo, getattr(ep, 'seed', seed + 20))})
+            if not muts and o['r1'] != o['r2'] and not ep.internal and ep.compare_results:
                 key = f'second-call-differs:{ep.name}'
                 if key not in seen_keys:
                     seen_keys.add(key)
                     ctx.violation(key, f'{ep.name}: a second identical call with the same (unmodified) argument objects gives a different result '
                                        f'({str(o["r1"])[:80]} vs {str(o["r2"])[:80]})',
-                                  {'entry_point': ep.name, 'containers': combo, 'seed': seed + 20, 'repro': repro_for(ep, combo, seed + 20)})
+                                  {'entry_point': ep.name, 'containers': combo, 'seed': seed + 20, 'repro': repro_for(ep, combo, getattr(ep, 'seed', seed + 20))})
         m = re.match(r'multivariate\.vine\.VineCopula\.fit\[(\w+)\]', ep.name)
         if m and all_raised and base_ro:
             key = f'F3:vine-fit-raises-readonly:{m.group(1)}'
             ctx.violation(key, f'VineCopula({m.group(1)!r}).fit(X) raises "assignment destination is read-only" for every DataFrame under pandas 3: '
                                'X.corr().to_numpy() is read-only and Tree.fit writes into the matrix it is handed',
                           {'entry_point': ep.name, 'repro': direct_repro(key, ep, {}, seed)})
-    ctx.extra['dynamic_entry_points'] = len(eps)
+    ctx.extra['dynamic_entry_points'] = len({e.name for e in eps})
     ctx.extra['dynamic_calls'] = 2 * n_combo
     ctx.extra['blocked_entry_points'] = blocked
-    ctx.rule('dynamic: %d public entry points x every accepted container kind (ndarray C/F-order, non-contiguous view, read-only, int64; DataFrame '
+    ctx.rule('dynamic: %d entry-point variants (public functions/methods x model family) x every accepted container kind (ndarray C/F-order, non-contiguous view, read-only, int64; DataFrame '
              'float/int/column-subset view; Series default/int/labelled index; dict; list), one kind varied at a time; each called twice on the '
              'same argument objects; deep snapshots (bytes, dtype, shape, strides, flags, base buffer, index/columns) compared after each call; '
-             'results of the two calls compared; data from default_rng(seed+20)' % len(eps))
+             'results of the two calls compared; data from default_rng(seed+20)' % len({e.name for e in eps}))
 
     # ---------------- 3. model verdict vs observation
-    static_with_dynamic = set()
+    static_with_dynamic = {e.static for e in eps if e.static}
     for (q, pn), obs in sorted(observed.items()):
-        static_with_dynamic.add(q)
         if q not in info:
             continue
         names = info[q]['params'] + ['self.' + a for a in info[q]['implicit']]
